@@ -484,8 +484,45 @@ def set_order_check(repo, tier, seed):
         if not ok:
             viol.append({'obligation': name, 'function': f.ident, 'verdict': 'data-flow obligation failed',
                          'solver_output': 'compile_members no longer sorts with key=get_tag_no_encoding under sort_by_tag', 'inputs': None})
+    # X.690 11.6: DER SET OF -- the component encodings are emitted in ascending order: the method that der.SetOf
+    # resolves encode_content to returns the join of sorted(L), where L collects one freshly encoded element per entry
+    dm = prog.module_by_relpath('asn1tools/codecs/der.py')
+    so = dm.classes.get('SetOf')
+    f = prog.find_method(so, 'encode_content') if so is not None else None
+    ok = False
+    why = 'der.SetOf.encode_content not found'
+    if f is not None:
+        why = 'the returned value is not built from sorted(<list of per-element encodings>)'
+        for r in ast.walk(f.node):
+            if isinstance(r, ast.Return) and r.value is not None:
+                srt = [c_ for c_ in ast.walk(r.value) if isinstance(c_, ast.Call) and isinstance(c_.func, ast.Name)
+                       and c_.func.id == 'sorted' and len(c_.args) == 1 and isinstance(c_.args[0], ast.Name) and not c_.keywords]
+                if not srt:
+                    continue
+                lst = srt[0].args[0].id
+                for loop in ast.walk(f.node):
+                    if isinstance(loop, ast.For) and isinstance(loop.target, ast.Name):
+                        ent = loop.target.id
+                        fresh = [a.targets[0].id for a in loop.body if isinstance(a, ast.Assign) and isinstance(a.targets[0], ast.Name)
+                                 and ast.unparse(a.value) == 'bytearray()']
+                        enc = [c_ for c_ in ast.walk(loop) if isinstance(c_, ast.Call) and ast.unparse(c_.func) == 'self.element_type.encode'
+                               and len(c_.args) >= 2 and isinstance(c_.args[0], ast.Name) and c_.args[0].id == ent
+                               and isinstance(c_.args[1], ast.Name) and c_.args[1].id in fresh]
+                        app = [c_ for c_ in ast.walk(loop) if isinstance(c_, ast.Call) and ast.unparse(c_.func) == lst + '.append'
+                               and len(c_.args) == 1 and isinstance(c_.args[0], ast.Name) and c_.args[0].id in fresh]
+                        if enc and app and ast.unparse(loop.iter) == 'data':
+                            ok = True
+        name = '%s/set-of-sorted(der.SetOf)' % f.ident
+        funcs.append({'function': f.ident, 'source_sha256': f.sha, 'paths': 1, 'obligations': 1, 'discharged': int(ok),
+                      'outcomes': {}, 'seconds': 0.0, 'inlined_callees': []})
+    else:
+        name = 'asn1tools/codecs/der.py::SetOf.encode_content/set-of-sorted(der.SetOf)'
+    obs.append((name, ok))
+    if not ok:
+        viol.append({'obligation': name, 'function': f.ident if f is not None else 'asn1tools/codecs/der.py::SetOf',
+                     'verdict': 'data-flow obligation failed', 'solver_output': why, 'inputs': None})
     return {'name': 'SET ordering data-flow', 'obligations': len(obs), 'discharged': sum(1 for o in obs if o[1]), 'violations': viol,
-            'functions': funcs, 'undecided': [] if len(obs) == 3 else [{'function': 'ber/der Compiler', 'kind': 'shape',
+            'functions': funcs, 'undecided': [] if len(obs) == 4 else [{'function': 'ber/der Compiler', 'kind': 'shape',
                                                                         'reason': 'compile_implicit_type / compile_members not found'}],
             'coverage': {'obligations': [o[0] for o in obs]}}
 
